@@ -153,6 +153,35 @@ def run(pid, tier, seed, replay=None):
                 case = semlib.make_case(cid, p, pidx[p["name"]], v, ops)
                 cases.append(case)
                 meta[cid] = dict(case=case, inputs=c["inputs"], lm=c["lm"], prog=p)
+    # overwrite family (C05): run; the caller overwrites an input relation with equally many other rows; run. Programs
+    # without negation / aggregation / custom providers: the second run must yield the least model containing everything
+    # the program value holds, and still no tuple twice (an index kept from the first run must not be trusted)
+    nover = 0
+    if plan.get("dupfamily") and not replay:
+        per = 25 if tier == "quick" else 200
+        for p in sel:
+            if not ("life" in p["tags"] and ("core" in p["tags"] or "mono" in p["tags"])) or any(r["ds"] != "-" for r in p["rels"]):
+                continue
+            pcs = by.get(p["name"], [])
+            pairs = []
+            for _ in range(per * 6):
+                c1, c2 = rnd.choice(pcs), rnd.choice(pcs)
+                rels = [r for r in c1["inputs"] if c1["inputs"][r] and len(c1["inputs"][r]) == len(c2["inputs"].get(r, []))
+                        and sorted(map(json.dumps, c1["inputs"][r])) != sorted(map(json.dumps, c2["inputs"][r]))
+                        and not any(x["name"] == r and x["kind"] == "lat" for x in p["rels"])]
+                if rels:
+                    pairs.append((c1, c2, rnd.choice(rels)))
+                if len(pairs) >= per:
+                    break
+            for c1, c2, r in pairs:
+                for v in [v for v in ("ser", "par") if (p["name"], v) in mods]:
+                    cid += 1
+                    ops = semlib.input_ops(p, c1["inputs"]) + [{"op": "run"}, {"op": "set", "rel": r, "rows": c2["inputs"][r]}, {"op": "run"}]
+                    case = semlib.make_case(cid, p, pidx[p["name"]], v, ops)
+                    cases.append(case)
+                    meta[cid] = dict(case=case, inputs={"first": c1["inputs"], "then": {r: c2["inputs"][r]}}, lm={}, prog=p)
+                    nover += 1
+        out.extra["overwrite_history_cases"] = nover
     # one extra case per program asks the compiled program for its plan (summary()); compared with SemiNaive!PlanOf
     plan_cases = {}
     if not replay:
